@@ -434,7 +434,7 @@ func (rc *RegClient) ImageCheckBase(ctx context.Context, r ref.Ref, opts ...Imag
 		}
 		if baseConfOCI.History[i].Author != confOCI.History[i].Author ||
 			baseConfOCI.History[i].Comment != confOCI.History[i].Comment ||
-			!baseConfOCI.History[i].Created.Equal(*confOCI.History[i].Created) ||
+			!timePtrEqual(baseConfOCI.History[i].Created, confOCI.History[i].Created) ||
 			baseConfOCI.History[i].CreatedBy != confOCI.History[i].CreatedBy ||
 			baseConfOCI.History[i].EmptyLayer != confOCI.History[i].EmptyLayer {
 			rc.slog.Debug("image history changed",
@@ -449,6 +449,14 @@ func (rc *RegClient) ImageCheckBase(ctx context.Context, r ref.Ref, opts ...Imag
 	rc.slog.Debug("base image layers and history matches",
 		slog.String("base", baseR.CommonName()))
 	return nil
+}
+
+// timePtrEqual compares two optional timestamps: both unset, or both set to the same instant.
+func timePtrEqual(a, b *time.Time) bool {
+	if a == nil || b == nil {
+		return a == nil && b == nil
+	}
+	return a.Equal(*b)
 }
 
 // ImageConfig returns the OCI config of a given image.
